@@ -181,7 +181,7 @@ func c03GenMax(r *vRand, bound *c03RL) c03RL {
 	m.v[0] = int64(r.Range(2, 16)) * 500
 	m.v[1] = int64(r.Range(2, 16))
 	m.v[2] = int64(r.Range(0, 4))
-	if bound != nil && !r.Chance(1, 5) {
+	if bound != nil && r.Bool() { // otherwise the child's max is free: an ancestor may be the tighter limit
 		for d := 0; d < c03D; d++ {
 			if bound.has[d] && m.v[d] > bound.v[d] {
 				m.v[d] = bound.v[d]
@@ -488,7 +488,7 @@ func TestVerifC03(t *testing.T) {
 	if h == nil {
 		t.Skip("VERIF_OUT not set")
 	}
-	n := h.N(120, 1500)
+	n := h.N(120, 1000)
 	steps := 60
 	if h.Tier == "thorough" {
 		steps = 90
@@ -501,7 +501,7 @@ func TestVerifC03(t *testing.T) {
 			}
 		})
 	}
-	h.Close("one history per case: 2-6 groups in a 1-3 level tree (sibling maxima may oversubscribe the parent; min<=max), one node whose " +
+	h.Close("one history per case: 2-7 groups in a 1-4 level tree (sibling maxima may oversubscribe the parent; min<=max), one node whose " +
 		"capacity changes, <=14 pods (requests with missing/zero/positive dims, 1-2 containers, 1/3 non-preemptible), 60/90 events: " +
 		"PreFilter, Reserve (only the pod just admitted, possibly after unrelated events), Unreserve, OnPodDelete, OnPodAdd, max/min raise, late group add, " +
 		"capacity change; switches (runtime, check-parent) = case index mod 4; streams: main, mask (a group's max lacks a dimension), " +
@@ -534,15 +534,15 @@ func c03Case(t *testing.T, h *vHarness, idx int, steps int) {
 	h.Op("dims %d", c03D)
 
 	// --- tree plan ---
-	nq := r.Range(2, 6)
+	nq := r.Range(2, 7)
 	var parents []int // ids that may carry children
 	for id := 1; id <= nq; id++ {
 		q := &c03Quota{id: id, lent: !r.Chance(1, 4)}
-		if len(parents) > 0 && !r.Chance(1, 3) {
-			q.parent = parents[r.Intn(len(parents))]
+		if len(parents) > 0 && !r.Chance(1, 4) {
+			q.parent = parents[len(parents)-1-r.Intn((len(parents)+1)/2)] // prefer recent parents: deeper chains
 		}
 		depth := len(w.chainPlan(q.parent)) + 1
-		if depth < 3 && id < nq && r.Chance(1, 2) {
+		if depth < 4 && id < nq && r.Chance(2, 3) {
 			q.isParent = true
 			parents = append(parents, id)
 		}
